@@ -28,7 +28,7 @@ def who(tid, c):
         if tid == base:
             return "WSet"
         base += 1
-    if c.get("sync"):
+    if c.get("sync") and not c.get("setter"):
         if tid == base:
             return "WSync"
         base += 1
@@ -42,19 +42,29 @@ def who(tid, c):
 def schedule(c):
     """model thread of every implementation step; a Flush made inside OnData (mark 13 and the state load that
     follows it, both on the goroutine's tid) is the extra user thread of the model"""
-    out, inflush = [], set()
+    out, inflush = [], {}
     nu = len(c.get("ups") or [])
+    user_tid = 1 + c["ncl"] if (c.get("setter") and c.get("sync")) else None
+    in_set = False
     for s in c["steps"]:
         w = who(s["tid"], c)
         ev = s.get("ev")
+        if s["tid"] == user_tid:
+            # one user goroutine: its synchronous reads (WSync) come first; SetCallbacks (WSet) begins with the step
+            # that has no event (the explicit scheduling point) — reads that needed no readMore have no step of their
+            # own, so a synthetic, event-less WSync step is placed in front of it
+            if not in_set and (ev is None or (ev["k"] == 3 and ev["r"] == 1)):
+                in_set = True
+                out.append(("WSync", "synthetic"))
+            w = "WSet" if in_set else "WSync"
         if w.startswith("WGor"):
             if ev and ev["k"] == 7 and ev["a"] == 13:
-                inflush.add(s["tid"])
+                inflush[s["tid"]] = 2      # the mark, then two state loads: WriteBytes' alloc and Flush
                 w = "WUser %d%%nat" % nu
-            elif s["tid"] in inflush:
-                inflush.discard(s["tid"])
+            elif inflush.get(s["tid"], 0) > 0:
+                inflush[s["tid"]] -= 1
                 w = "WUser %d%%nat" % nu
-        out.append(w)
+        out.append((w, s))
     return out
 
 
@@ -73,13 +83,14 @@ def case_to_coq(c):
     inb = core.coq_list([("EData " + zl(e)) if e else "EClose" for e in c["inb"]])
     scr = core.coq_list(["(%d%%nat, %d%%nat)" % (k, cl) for (k, cl) in (c.get("script") or [])])
     sy = core.coq_list(["%d%%nat" % k for k in (c.get("sync") or [])])
-    sch = core.coq_list(schedule(c))
+    pairs = schedule(c)
+    sch = core.coq_list([w for (w, _) in pairs])
     ups = [[[b] for b in u] for u in (c.get("ups") or [])]
     if c.get("infl"):
         ups.append([[9]] * sum(c["infl"]))
     upsq = core.coq_list([core.coq_list([zl(m) for m in u]) for u in ups])
     uresq = core.coq_list([core.coq_list(["true" if b else "false" for b in (u or [])]) for u in (c.get("ures") or [])])
-    evs = core.coq_list([event(s["ev"]) for s in c["steps"]])
+    evs = core.coq_list([("None" if st == "synthetic" else event(st["ev"])) for (_, st) in pairs])
     offers = core.coq_list([zl(o) for o in (c["offers"] or [])])
     return ("{| s_cb0 := %s; s_inb := %s; s_ncl := %d%%nat; s_script := %s; s_sy := %s; s_ups := %s; s_sched := %s; s_events := %s; "
             "s_offers := %s; s_consumed := %s; s_final := %s; s_recv := %s; s_pend := %s; s_finished := %s; s_ures := %s |}"
